@@ -270,4 +270,27 @@ theorem sw_alone {s : Sys} {i n cid : Nat} {ws : List Wid}
     · exact Or.inl hc
     · exact Or.inr (Or.inl hc)
 
+theorem reachable_of_runThread {cfg : Cfg} {ops : List Op} {s s' : Sys} {i k : Nat}
+    (hs : Reachable cfg ops s) (h : runThread cfg s i k = some s') : Reachable cfg ops s' := by
+  induction k generalizing s with
+  | zero => simp only [runThread, Option.some.injEq] at h; exact h ▸ hs
+  | succ k ih =>
+    simp only [runThread] at h
+    split at h
+    · rename_i s1 h1
+      exact ih (Reachable.step i {} hs h1) h
+    · cases h
+
+theorem reachable_of_runSched {cfg : Cfg} {ops : List Op} {s s' : Sys} {sched : List (Nat × Choice)}
+    (hs : Reachable cfg ops s) (h : runSched cfg s sched = some s') : Reachable cfg ops s' := by
+  induction sched generalizing s with
+  | nil => simp only [runSched, Option.some.injEq] at h; exact h ▸ hs
+  | cons p rest ih =>
+    obtain ⟨i, ch⟩ := p
+    simp only [runSched] at h
+    split at h
+    · rename_i s1 h1
+      exact ih (Reachable.step i ch hs h1) h
+    · cases h
+
 end Xp.C13
